@@ -1,0 +1,13 @@
+//go:build verif
+
+// Contracts for /verif (build tag "verif"): //@ comment blocks and pure ghost functions only.
+package sys
+
+//@ prop C16 C17 C19
+//@ func StripPrefixesAndTrailingSlash(path string) string
+//@   ensures len(r0) <= len(path)
+//@   modifies nothing
+//@   loop 0 (pathLen int)
+//@     invariant 0 <= pathLen && pathLen <= len(path)
+//@   loop 1 (pathLen int, pathI int)
+//@     invariant 0 <= pathI && pathI <= pathLen && pathLen <= len(path)
